@@ -54,8 +54,7 @@ impl ExtendedParticleData {
                 _ => {
                     // Skip unknown types for forward compatibility
                     let skip_size = reader.read_u32_le()?;
-                    let mut skip_buffer = vec![0u8; skip_size as usize];
-                    reader.read_exact(&mut skip_buffer)?;
+                    reader.read_bytes(skip_size as usize)?;
                 }
             }
         }
@@ -423,7 +422,8 @@ impl ParentAnimationData {
     /// Parse PADC chunk
     pub fn parse<R: Read + std::io::Seek>(reader: &mut ChunkReader<R>) -> Result<Self> {
         let weight_count = reader.read_u32_le()?;
-        let mut texture_weights = Vec::with_capacity(weight_count as usize);
+        // A weight is u16 + f32 + u8
+        let mut texture_weights = Vec::with_capacity(reader.capacity_for(weight_count, 7)?);
 
         for _ in 0..weight_count {
             let weight = TextureWeight {
@@ -435,7 +435,8 @@ impl ParentAnimationData {
         }
 
         let mode_count = reader.read_u32_le()?;
-        let mut blending_modes = Vec::with_capacity(mode_count as usize);
+        // A mode is u8 + u8 + f32
+        let mut blending_modes = Vec::with_capacity(reader.capacity_for(mode_count, 6)?);
 
         for _ in 0..mode_count {
             let mode = BlendMode {
@@ -646,14 +647,14 @@ impl EdgeFadeData {
     /// Parse EDGF chunk
     pub fn parse<R: Read + std::io::Seek>(reader: &mut ChunkReader<R>) -> Result<Self> {
         let distance_count = reader.read_u32_le()?;
-        let mut fade_distances = Vec::with_capacity(distance_count as usize);
+        let mut fade_distances = Vec::with_capacity(reader.capacity_for(distance_count, 4)?);
 
         for _ in 0..distance_count {
             fade_distances.push(reader.read_f32_le()?);
         }
 
         let factor_count = reader.read_u32_le()?;
-        let mut fade_factors = Vec::with_capacity(factor_count as usize);
+        let mut fade_factors = Vec::with_capacity(reader.capacity_for(factor_count, 4)?);
 
         for _ in 0..factor_count {
             fade_factors.push(reader.read_f32_le()?);
@@ -841,7 +842,8 @@ impl TextureAnimationChunk {
     /// Parse TXAC chunk
     pub fn parse<R: Read + std::io::Seek>(reader: &mut ChunkReader<R>) -> Result<Self> {
         let count = reader.read_u32_le()?;
-        let mut texture_animations = Vec::with_capacity(count as usize);
+        // The extended properties alone are five f32 and four u8
+        let mut texture_animations = Vec::with_capacity(reader.capacity_for(count, 24)?);
 
         for _ in 0..count {
             let extended_anim = ExtendedTextureAnimation::parse(reader)?;
@@ -1159,7 +1161,7 @@ impl DpivChunk {
 
         // Read vertex positions
         reader.seek_to_position(chunk_start + vertex_pos_offset as u64)?;
-        let mut vertex_positions = Vec::with_capacity(vertex_pos_count as usize);
+        let mut vertex_positions = Vec::with_capacity(reader.capacity_for(vertex_pos_count, 12)?);
         for _ in 0..vertex_pos_count {
             let pos = [
                 reader.read_f32_le()?,
@@ -1171,7 +1173,7 @@ impl DpivChunk {
 
         // Read face normals
         reader.seek_to_position(chunk_start + face_norm_offset as u64)?;
-        let mut face_normals = Vec::with_capacity(face_norm_count as usize);
+        let mut face_normals = Vec::with_capacity(reader.capacity_for(face_norm_count, 12)?);
         for _ in 0..face_norm_count {
             let normal = [
                 reader.read_f32_le()?,
@@ -1183,14 +1185,14 @@ impl DpivChunk {
 
         // Read indices
         reader.seek_to_position(chunk_start + index_offset as u64)?;
-        let mut indices = Vec::with_capacity(index_count as usize);
+        let mut indices = Vec::with_capacity(reader.capacity_for(index_count, 2)?);
         for _ in 0..index_count {
             indices.push(reader.read_u16_le()?);
         }
 
         // Read flags
         reader.seek_to_position(chunk_start + flags_offset as u64)?;
-        let mut flags = Vec::with_capacity(flags_count as usize);
+        let mut flags = Vec::with_capacity(reader.capacity_for(flags_count, 2)?);
         for _ in 0..flags_count {
             flags.push(reader.read_u16_le()?);
         }
@@ -1338,8 +1340,7 @@ impl ParentEventData {
             let data_size = reader.read_u32_le()?;
             let timestamp = reader.read_u32_le()?;
 
-            let mut data = vec![0u8; data_size as usize];
-            reader.read_exact(&mut data)?;
+            let data = reader.read_bytes(data_size as usize)?;
 
             event_entries.push(ParentEventEntry {
                 event_id,
@@ -1401,7 +1402,7 @@ impl CollisionMeshData {
         let face_count = reader.read_u32_le()?;
         let material_count = reader.read_u32_le()?;
 
-        let mut vertices = Vec::with_capacity(vertex_count as usize);
+        let mut vertices = Vec::with_capacity(reader.capacity_for(vertex_count, 12)?);
         for _ in 0..vertex_count {
             vertices.push([
                 reader.read_f32_le()?,
@@ -1410,7 +1411,7 @@ impl CollisionMeshData {
             ]);
         }
 
-        let mut faces = Vec::with_capacity(face_count as usize);
+        let mut faces = Vec::with_capacity(reader.capacity_for(face_count, 8)?);
         for _ in 0..face_count {
             faces.push(CollisionFace {
                 indices: [
@@ -1422,7 +1423,7 @@ impl CollisionMeshData {
             });
         }
 
-        let mut materials = Vec::with_capacity(material_count as usize);
+        let mut materials = Vec::with_capacity(reader.capacity_for(material_count, 12)?);
         for _ in 0..material_count {
             materials.push(CollisionMaterial {
                 flags: reader.read_u32_le()?,
